@@ -89,7 +89,10 @@ MatchStr(E, e, q) ==
       n == q + Len(lit)
   IN IF StartsWith(s, q, lit, ic)
         /\ (E.cfg.autokwd /\ KeywordLike(lit) => ~(n <= Len(s) /\ s[n] \in Word))
-     THEN TOk(n, <<[Leaf(lit, q, n, "str", FALSE) EXCEPT !.kw = KeywordLike(lit)]>>)   \* the value is the literal as written in the grammar
+     THEN \* the value is the literal as written in the grammar; a keyword matched through autokwd is a regex
+          \* match and keeps the text as written in the input (they differ only under ignore_case)
+          LET txt == IF E.cfg.autokwd /\ KeywordLike(lit) THEN SubSeq(s, q, n-1) ELSE lit IN
+          TOk(n, <<[Leaf(txt, q, n, "str", FALSE) EXCEPT !.kw = KeywordLike(lit)]>>)
      ELSE TNo
 
 \* regex of the shape  pre [set]{min,} post  with optionally the class repetition as group 1
@@ -665,7 +668,14 @@ AbstractAltsPure(g, ru) ==
     IF ru.body.k = "alt" THEN \A i \in 1..Len(ru.body.es) : PureMatchAlt(g, ru.body.es[i])
     ELSE PureMatchAlt(g, ru.body)
 
+\* A rule-level ws modifier inside an eolterm repetition is not judged: Arpeggio restores the
+\* whitespace set from the value already stripped of newlines (finding F-C22-1, replayed from its witness).
+UsesEol(g) == \E i \in 1..Len(g.rules) : \E e \in SubExprs(g.rules[i].body) :
+                 e.k \in {"star", "plus", "unord", "asg"} /\ e.eol
+UsesWsMod(g) == \E i \in 1..Len(g.rules) : g.rules[i].ws # <<>>
+
 WellFormed(g) ==
+  /\ ~(UsesEol(g) /\ UsesWsMod(g))
   /\ \A i \in 1..Len(g.rules) : WellFormedRule(g, g.rules[i])
   /\ \A i \in 1..Len(g.rules) : AbstractAltsPure(g, g.rules[i])
   /\ \A i, j \in 1..Len(g.rules) : g.rules[i].name = g.rules[j].name => i = j
